@@ -155,6 +155,24 @@ func r103(c *an.Ctx) {
 	const rule = "R10.3"
 	g := analyseGuarded(c)
 	reportGuarded(c, rule, g, func(s string) bool { return s == "internal/minibus.listener" })
+	// the send itself (not only the load of l.ch) happens under the listener's read lock
+	if ls := mustFunc(c, rule, "internal/minibus", "listener", "send"); ls != nil {
+		w := lockWorld(c)
+		for i, s := range an.Sends(ls) {
+			if _, _, f, ok := an.FieldOf(sourceField(s.Chan)); !ok || f != "ch" {
+				continue
+			}
+			held := w.At(s.Instr)
+			okl := false
+			for k, m := range held {
+				if strings.HasSuffix(k, ".m") && m >= an.RLock {
+					okl = true
+				}
+			}
+			c.Check(okl, rule, fmt.Sprintf("(*internal/minibus.listener).send|send#%d on l.ch under the listener lock", i+1), s.Instr.Pos(), "lock set "+held.String(),
+				"the channel is sent on with lock set "+held.String()+": stop() can close it while the send is in flight (send on closed channel panic)")
+		}
+	}
 	stop := mustFunc(c, rule, "internal/minibus", "listener", "stop")
 	if stop == nil {
 		return
@@ -338,6 +356,7 @@ func r105(c *an.Ctx) {
 			c.Check(okc, rule, "(*internal/minibus.Bus).collect|keeps live listeners only", col.Pos(), "append guarded by alive()", "collect does not keep exactly the listeners that are alive")
 		}
 	}
+	registryRebuild(c, rule)
 }
 
 // r106: early-exit consumers cancel their producer (E6c), applied to pkg/resource.
@@ -518,5 +537,108 @@ func r107(c *an.Ctx) {
 		}
 		c.Check(free, rule, fmt.Sprintf("(*internal/minibus.Bus).Send|delivery#%d without the registry lock", i+1), cl.Pos(), "lock set "+held.String(),
 			"listener.send is called with lock set "+held.String()+": a slow subscriber blocks Listen and collect (new subscriptions and other cancellations stall)")
+	}
+}
+
+// sourceField returns the field load a value originates from (through local cells), or the value itself.
+func sourceField(v ssa.Value) ssa.Value {
+	for _, s := range an.Sources(v) {
+		if _, _, _, ok := an.FieldOf(s); ok {
+			return s
+		}
+	}
+	return v
+}
+
+// registryRebuild: every store to Bus.listeners writes a slice built (append
+// chain / range filter) from a load of Bus.listeners made inside the same
+// exclusive region - never a snapshot taken earlier, which would drop
+// listeners registered in between.
+func registryRebuild(c *an.Ctx, rule string) {
+	w := lockWorld(c)
+	n := 0
+	for _, fn := range c.Prog.FuncsIn("internal/minibus") {
+		an.Instrs(fn, func(in ssa.Instruction) {
+			st, ok := in.(*ssa.Store)
+			if !ok {
+				return
+			}
+			if _, sn, f, okf := an.FieldOf(st.Addr); !okf || f != "listeners" || !strings.HasSuffix(sn, "minibus.Bus") {
+				return
+			}
+			n++
+			cons := an.FuncName(fn) + "|listener set rebuilt from the live registry"
+			c.SawFunc(an.FuncName(fn))
+			li := w.Info[fn]
+			lock := strings.TrimSuffix(an.AccessPath(st.Addr), ".listeners") + ".listenerM"
+			// collect the origins of the stored slice: follow append chains, phis, range elements
+			seen := map[ssa.Value]bool{}
+			fromLive, foreign := false, ""
+			var walk func(v ssa.Value)
+			walk = func(v ssa.Value) {
+				if v == nil || seen[v] {
+					return
+				}
+				seen[v] = true
+				switch x := v.(type) {
+				case *ssa.Phi:
+					for _, e := range x.Edges {
+						walk(e)
+					}
+				case *ssa.Call:
+					if an.CalleeName(x) == "builtin append" {
+						walk(x.Call.Args[0])
+						return
+					}
+					foreign = "call " + an.CalleeName(x)
+				case *ssa.Slice:
+					walk(x.X)
+				case *ssa.Const:
+				case *ssa.Alloc:
+					// new slice literal / array
+				case *ssa.UnOp:
+					if _, sn, f, okf := an.FieldOf(x); okf && f == "listeners" && strings.HasSuffix(sn, "minibus.Bus") {
+						if li != nil && an.HeldContinuously(li, lock, an.WLock, x, st) {
+							fromLive = true
+						} else {
+							foreign = "a load of b.listeners outside the exclusive region of the store"
+						}
+						return
+					}
+					if cell := an.CellOf(x.X); cell != nil {
+						for _, s2 := range an.StoresTo(cell) {
+							walk(s2.Val)
+						}
+						return
+					}
+					foreign = x.Name()
+				case *ssa.Parameter:
+					foreign = "parameter " + x.Name()
+				case *ssa.FreeVar:
+					foreign = "captured " + x.Name()
+				default:
+					foreign = v.Name()
+				}
+			}
+			walk(st.Val)
+			// appending to the live slice, or rebuilding from it by filtering (elements come from ranging the live slice)
+			if !fromLive && foreign == "" {
+				// built from nil by appending elements: the elements must come from ranging the live slice
+				an.Instrs(fn, func(in2 ssa.Instruction) {
+					if u, ok := in2.(*ssa.UnOp); ok {
+						if _, sn, f, okf := an.FieldOf(u); okf && f == "listeners" && strings.HasSuffix(sn, "minibus.Bus") {
+							if li != nil && an.HeldContinuously(li, lock, an.WLock, u, st) {
+								fromLive = true
+							}
+						}
+					}
+				})
+			}
+			c.Check(fromLive && foreign == "", rule, cons, st.Pos(), "the stored slice derives from b.listeners read in the same exclusive region",
+				"b.listeners is overwritten with a slice that does not derive (only) from the registry as read inside the same exclusive region ("+foreign+"): a listener registered since that snapshot is silently dropped and never receives another event")
+		})
+	}
+	if n == 0 {
+		c.Unk(rule, "internal/minibus.Bus|stores to listeners", 0, "no store to Bus.listeners found")
 	}
 }
